@@ -76,6 +76,9 @@ type FakeCtr struct {
 	LabelKV  [][2][]int `json:"labels"` // [[keyBytes, valueBytes], ...]
 	Frames   []Frame    `json:"frames"`
 	NoName   bool       `json:"noName"`
+	// Alias: a second entry of the container's Names (a legacy --link alias "/other/alias"); the container is still ONE
+	// container named by its first name
+	Alias []int `json:"alias,omitempty"`
 }
 
 // simpleCtr builds a container from Go strings.
@@ -149,6 +152,9 @@ func (d *FakeDocker) ContainerList(_ context.Context, o apicontainer.ListOptions
 			Created: int64(c.Created), State: c.State, Status: c.Status, Labels: c.Labels}
 		if !c.NoName {
 			tc.Names = []string{"/" + c.Name}
+			if len(c.Alias) > 0 {
+				tc.Names = append(tc.Names, "/"+S(c.Alias))
+			}
 		}
 		out = append(out, tc)
 	}
@@ -246,9 +252,12 @@ func (d *FakeDocker) ContainerLogs(_ context.Context, id string, o apicontainer.
 		"stderr": o.ShowStderr, "timestamps": o.Timestamps, "tail": o.Tail, "follow": o.Follow, "details": o.Details})
 	var gate chan struct{}
 	if d.gated && !d.hang && d.arrived != nil && round <= len(d.expect) && d.expect[round-1] > 1 {
-		gate = make(chan struct{})
-		d.arrived[ci] = gate
-		d.arrivedN++
+		// (a container opened a second time in one round is not gated: the first call holds the gate, and the trace shows both)
+		if _, dup := d.arrived[ci]; !dup {
+			gate = make(chan struct{})
+			d.arrived[ci] = gate
+			d.arrivedN++
+		}
 	}
 	d.mu.Unlock()
 	if gate != nil {
